@@ -209,7 +209,29 @@ impl<B: SimField, H: ElementHasher<BaseField = B> + Send + Sync + 'static> Base 
     }
 
     fn deliver(&self, data: &[u8], streamed: bool, inputs: Inputs, policy: usize, ch: &mut Chooser, ctx: &mut Ctx) -> Delivered {
-        let (parsed, u1) = if streamed {
+        let (parsed, u1) = if streamed && ch.chance("deliver.cursor?", 1, 4) {
+            // third reader: std::io::Cursor, positioned after a header of k foreign bytes, or -
+            // as after skipping a header whose length was taken from the input - PAST the end
+            let k = ch.index("cursor.header", 40);
+            let past_end = ch.chance("cursor.past_end?", 1, 3);
+            let mut buf: Vec<u8> = (0..k).map(|i| (i as u8).wrapping_mul(37)).collect();
+            buf.extend_from_slice(data);
+            let pos = if past_end { buf.len() as u64 + 1 + ch.pick("cursor.beyond", 1000) } else { k as u64 };
+            ctx.fault(if past_end { "cursor_positioned_past_the_end" } else { "cursor_positioned_after_a_header" });
+            let r = metered(|| {
+                guard(|| {
+                    let mut cur = std::io::Cursor::new(&buf[..]);
+                    cur.set_position(pos);
+                    Proof::read_from(&mut cur)
+                })
+            });
+            if past_end {
+                if let (Ok(Ok(_)), _) = &r {
+                    ctx.violation("C06/cursor-past-the-end-parses", format!("a proof was decoded from a cursor positioned {} bytes past the end of its {} bytes", pos - buf.len() as u64, buf.len()));
+                }
+            }
+            r
+        } else if streamed {
             metered(|| parse_streamed(ch, ctx, data))
         } else {
             metered(|| guard(|| Proof::from_bytes(data)))
